@@ -55,3 +55,35 @@ for _ct in ("spherical", "cartesian"):
                  returns="opaque", ensures=_ens,
                  options={"abstract": True, "summaries": _ACC + [_G + "get_ball_tree"]},
                  raises=[("ValueError", f"not ({_IS['nodes']} or {_IS['face centers']} or {_IS['edge centers']})", "iff")])
+
+
+# ---- UxDataArray wrappers (C12 dataflow): remapped values come from the kernel applied to THIS array's grid and data, the result is
+# attached to the DESTINATION grid with the last dimension renamed to the destination element kind ------------------------------------
+_RN = "uxarray.remap.nearest_neighbor."
+_RI = "uxarray.remap.inverse_distance_weighted."
+_DIM = {"nodes": "n_node", "edge centers": "n_edge", "face centers": "n_face"}
+for _rt, _dd in _DIM.items():
+    for _d in (("n_node",), ("time", "n_face")):
+        contract(_RN + "_nearest_neighbor_uxda", props=["C12"], variant=f"{_rt};dims=" + ",".join(_d),
+                 params={"source_uxda": f"obj('UxDataArray', dims={_d!r})", "destination_grid": "obj('Grid')", "remap_to": repr(_rt),
+                         "coord_type": "opaque"},
+                 returns="opaque",
+                 ensures=[f"same(result.values, summary('{_RN}_nearest_neighbor', source_uxda.uxgrid, destination_grid, source_uxda.values, "
+                          f"'{_rt}', coord_type))",
+                          "same(result.uxgrid, destination_grid)", f"result.dims == {list(_d[:-1]) + [_dd]!r}",
+                          "same(result.name, source_uxda.name)"],
+                 options={"abstract": True, "summaries": [_RN + "_nearest_neighbor"]},
+                 raises=[("Exception", "False", "only_if")])
+
+for _rt, _dd in _DIM.items():
+    for _d in (("n_node",), ("time", "n_face")):
+        contract(_RI + "_inverse_distance_weighted_remap_uxda", props=["C12"], variant=f"{_rt};dims=" + ",".join(_d),
+                 params={"source_uxda": f"obj('UxDataArray', dims={_d!r})", "destination_grid": "obj('Grid')", "remap_to": repr(_rt),
+                         "coord_type": "opaque", "power": "opaque", "k": "opaque"},
+                 returns="opaque",
+                 ensures=[f"same(result.values, summary('{_RI}_inverse_distance_weighted_remap', source_uxda.uxgrid, destination_grid, "
+                          f"source_uxda.values, '{_rt}', coord_type, power, k))",
+                          "same(result.uxgrid, destination_grid)", f"result.dims == {list(_d[:-1]) + [_dd]!r}",
+                          "same(result.name, source_uxda.name)"],
+                 options={"abstract": True, "summaries": [_RI + "_inverse_distance_weighted_remap"]},
+                 raises=[("Exception", "False", "only_if")])
